@@ -1,4 +1,5 @@
 prop("C05", files={"root": ["vf_c05_test.go", "vf_c03_test.go", "vf_c02_test.go"] + EV}, shared={"root": J + ["vf_ids_test.go"]},
      assumptions=["keep-lists in vf_evgen_test.go (rredact) transcribe the specification's redaction sections v1/v6/v8/v9/v11 and the version->algorithm assignment",
                   "events are hashed and signed by the reference signer (ed25519 over R-canon(R-redact(event))), so a library redaction that differs from the reference also fails signature verification",
-                  "content numbers are integers within +/-(2^53-1); floats (legal below v6) are judged for value equality only"])
+                  "content numbers are integers within +/-(2^53-1); floats (legal below v6) are judged for value equality only"],
+     rapidfuzz=[('root', 'C05/redact', 45)])
